@@ -114,6 +114,11 @@ fn main() {
         "C12" => vpcheck::props::c12::run(&ctx),
         "C13" => vpcheck::props::c13::run(&ctx),
         "C14" => vpcheck::props::c14::run(&ctx),
+        "C15" => vpcheck::props::c15::run(&ctx),
+        "C16" => vpcheck::props::c16::run(&ctx),
+        "C17" => vpcheck::props::c17::run(&ctx),
+        "C18" => vpcheck::props::c18::run(&ctx),
+        "C19" => vpcheck::props::c19::run(&ctx),
         _ => usage(),
     }
     std::process::exit(ctx.finish());
